@@ -55,6 +55,10 @@ class Mesh:
         # appropriate occasion (before write/optimize)
         self.depot.append(entity)
 
+        if self.is_assembled:
+            # what was assembled before does not contain this entity; start over (with vertices where they are now)
+            self.backport()
+
     def _add_vertices(self, operation: Operation) -> List[Vertex]:
         """Creates/finds vertices from operation's points and returns them"""
         vertices: List[Vertex] = []
@@ -75,6 +79,10 @@ class Mesh:
         https://www.openfoam.com/documentation/user-guide/4-mesh-generation-and-conversion/4.3-mesh-generation-with-the-blockmesh-utility#x13-470004.3.2
         (breaks the 100% hex-mesh rule)"""
         self.patch_list.merge(master, slave)
+
+        if self.is_assembled:
+            # vertices on the slave patch are duplicated during assembly
+            self.backport()
 
     def set_default_patch(self, name: str, kind: str) -> None:
         """Adds the 'defaultPatch' entry to the mesh; any non-specified block boundaries
@@ -98,6 +106,10 @@ class Mesh:
         """Excludes the given operation from any processing;
         the data remains but it will not contribute to the mesh"""
         self.deleted.add(operation)
+
+        if self.is_assembled:
+            # the block is already there; assemble again without it (with vertices where they are now)
+            self.backport()
 
     def assemble(self, skip_edges: bool = False) -> None:
         """Converts classy_blocks entities (operations and shapes) to
